@@ -35,6 +35,7 @@ type access struct {
 }
 
 var tokRe = regexp.MustCompile(`AT_FDCWD(?:<((?:[^>\\]|\\.)*)>)?|\b\d+<((?:[^>\\]|\\.)*)>|"((?:[^"\\]|\\.)*)"`)
+var retFdRe = regexp.MustCompile(`^\d+<((?:[^>\\]|\\.)*)>`)
 var lineRe = regexp.MustCompile(`^(\d+) +(?:<\.\.\. )?([a-z_0-9]+)`)
 
 func unescape(s string) string {
@@ -132,9 +133,17 @@ func traceWindows(path, startCwd string) (map[int][]access, int, error) {
 		// cut the result part (" = 3</path>") off: the returned descriptor repeats a path argument
 		args := ln
 		if i := strings.LastIndex(args, ") = "); i >= 0 {
+			// the descriptor a call returned is annotated with the path it physically
+			// refers to: this is where an open through a symbolic link really ended up
+			if m := retFdRe.FindStringSubmatch(args[i+4:]); m != nil {
+				if p := strings.TrimSuffix(unescape(m[1]), " (deleted)"); strings.HasPrefix(p, "/") {
+					win[cur] = append(win[cur], access{sysc + "=>fd", p})
+				}
+			}
 			args = args[:i]
 		}
 		base := cwd
+		nstr := 0
 		for _, t := range tokRe.FindAllStringSubmatch(args, -1) {
 			switch {
 			case strings.HasPrefix(t[0], "AT_FDCWD"):
@@ -153,7 +162,13 @@ func traceWindows(path, startCwd string) (map[int][]access, int, error) {
 				if strings.HasSuffix(t[0], `"...`) {
 					continue
 				}
+				nstr++
 				if sysc == "execve" {
+					continue
+				}
+				// not path arguments: the target text of a new symbolic link (1st string)
+				// and the buffer readlink fills (2nd string)
+				if (nstr == 1 && (sysc == "symlinkat" || sysc == "symlink")) || (nstr == 2 && (sysc == "readlinkat" || sysc == "readlink")) {
 					continue
 				}
 				var full string
